@@ -1,6 +1,7 @@
 package main
 
 import (
+	"sort"
 	"go/types"
 	"fmt"
 	"go/constant"
@@ -16,11 +17,13 @@ func init() {
 	register(&Check{
 		ID:  "C20",
 		Run: runC20,
-		Explanation: "Decides that resources are substituted only after a full structural equality check, and that the equality has the shape of an equality: (R1 gate) every registration of a duplicate (map updates of OptimizationContext.DuplicateFonts / DuplicateImages and the hand-out of a replacement object number in handleDuplicateFontObject, handleDuplicateImageObject and the form/content duplicate detectors) is reached only on the true edge of model.EqualObjects applied to the two candidates — a name or hash match alone is not enough; (R2 shape) in model.EqualObjects the null case returns `o2 == nil` (symmetric; an `o2 != nil` makes null equal to everything), different dynamic types return false, the kind switch covers every value kind and its default reports an error with ok=false; equalDicts returns true only after the lengths were compared equal and every key of d1 was looked up in d2 with a `!found -> false` exit and compared (through EqualObjects or the font-name rule) with a `!ok -> false` exit; equalArrays likewise (length, element-wise); equalStreamDicts compares the dictionaries and then the raw bytes with bytes.Equal. (R3) model.weaveResourceSubDict, which merges a page node's own resource sub-dictionary into the inherited one during ConsolidatePageResources, stores d2[k] on every iteration of its loop over d1 — the nearer definition always overrides the inherited one (ISO 32000-1 7.7.3.4); a skip for keys that already exist would let an ancestor's resource win over the page's own. (R4) model.skipStringLiteral, the content-stream scanner whose result decides which resources of a page are used (and which are pruned), counts backslash parity before it accepts a closing parenthesis; (R5) every hit in Optimize.DuplicateFonts / DuplicateImages is followed, before the iteration ends or the function returns, by a redirect of the resource entry (store into a types.Dict) or by returning the replacement object number — a skipped duplicate keeps a reference to an object that a later pass removes. NOT decided: that the page-tree walk visits what it should, content-stream identity, idempotence.",
+		Explanation: "Decides that resources are substituted only after a full structural equality check, and that the equality has the shape of an equality: (R1 gate) every registration of a duplicate (map updates of OptimizationContext.DuplicateFonts / DuplicateImages and the hand-out of a replacement object number in handleDuplicateFontObject, handleDuplicateImageObject and the form/content duplicate detectors) is reached only on the true edge of model.EqualObjects applied to the two candidates — a name or hash match alone is not enough; (R2 shape) in model.EqualObjects the null case returns `o2 == nil` (symmetric; an `o2 != nil` makes null equal to everything), different dynamic types return false, the kind switch covers every value kind and its default reports an error with ok=false; equalDicts returns true only after the lengths were compared equal and every key of d1 was looked up in d2 with a `!found -> false` exit and compared (through EqualObjects or the font-name rule) with a `!ok -> false` exit; equalArrays likewise (length, element-wise); equalStreamDicts compares the dictionaries and then the raw bytes with bytes.Equal. (R3) model.weaveResourceSubDict, which merges a page node's own resource sub-dictionary into the inherited one during ConsolidatePageResources, stores d2[k] on every iteration of its loop over d1 — the nearer definition always overrides the inherited one (ISO 32000-1 7.7.3.4); a skip for keys that already exist would let an ancestor's resource win over the page's own. (R4) model.skipStringLiteral, the content-stream scanner whose result decides which resources of a page are used (and which are pruned), counts backslash parity before it accepts a closing parenthesis; (R5) every hit in Optimize.DuplicateFonts / DuplicateImages is followed, before the iteration ends or the function returns, by a redirect of the resource entry (store into a types.Dict) or by returning the replacement object number — a skipped duplicate keeps a reference to an object that a later pass removes. (R6) every key checkInheritedPageAttrs looks up on a /Pages node (the attributes pages inherit) is named in writePageEntries' table of entries written for such nodes — a missing row leaves an indirect value unwritten and the pages below lose the attribute. (R7) optimizeContentStreamUsage returns a replacement reference only on the true edge of a comparison of the two streams' stored bytes (Raw, or Content after Decode in the same function). NOT decided: that the page-tree walk visits what it should, idempotence.",
 		Rules: []string{
 			"C20.R1 MPT: duplicate registration only on EqualObjects == true",
 			"C20.R2 shape: null/type/kind handling of EqualObjects; size + all-elements shape of equalDicts/equalArrays/equalStreamDicts",
 			"C20.R5 MPT: a hit in DuplicateFonts/DuplicateImages is followed by a redirect of the resource entry (or the replacement is returned)",
+			"C20.R6 TABLE siblings: page attributes the reader inherits from /Pages nodes are in the writer's table for such nodes",
+			"C20.R7 MPT: a content stream is replaced by a cached one only on a comparison of stored bytes",
 			"C20.R4 shape: the content scanner that decides which resources a page uses tracks backslash parity when it skips string literals",
 			"C20.R3 shape: resource inheritance consolidation lets the nearer definition override (unconditional store per key)",
 		},
@@ -39,6 +42,10 @@ func runC20(c *Ctx) {
 	checkEscapeParity(c, "C20.R4", "pkg/pdfcpu/model.skipStringLiteral")
 	r.MinInst["C20.R5"] = 1
 	checkDuplicateHitsRedirect(c)
+	r.MinInst["C20.R6"] = 3
+	checkInheritableEntriesWritten(c)
+	r.MinInst["C20.R7"] = 1
+	checkContentDedupComparesStoredBytes(c)
 	// ---- R1
 	n := 0
 	for _, fn := range p.Funcs {
@@ -489,5 +496,154 @@ func checkDuplicateHitsRedirect(c *Ctx) {
 	}
 	if n == 0 {
 		r.Bad("C20.R5", "pkg/pdfcpu", "anchor", "", "UNRESOLVED-ANCHOR: no lookup in DuplicateFonts/DuplicateImages found")
+	}
+}
+
+// ---------------- C20.R6 / R7 (round 3 of seeding) ----------------
+
+// constLookupKeys: constant strings used as dictionary keys in fn (Dict.Find & co., d["…"] lookups).
+func constLookupKeys(fn *ssa.Function) map[string]bool {
+	out := map[string]bool{}
+	eachInstr(fn, func(_ *ssa.BasicBlock, _ int, i ssa.Instruction) {
+		switch x := i.(type) {
+		case *ssa.Lookup:
+			if s, ok := constString(x.Index); ok {
+				out[s] = true
+			}
+		case *ssa.Call:
+			_, ref := callRef(x)
+			if strings.HasPrefix(ref, "pkg/pdfcpu/types.Dict.") || strings.HasPrefix(ref, "pkg/pdfcpu/types.(Dict).") {
+				for _, a := range x.Call.Args[1:] {
+					if s, ok := constString(a); ok {
+						out[s] = true
+					}
+				}
+			}
+		}
+	})
+	return out
+}
+
+// checkInheritableEntriesWritten (C20.R6): every page attribute the page-tree reader inherits from a /Pages node
+// (the keys checkInheritedPageAttrs looks up) is in the table of entries writePageEntries writes for such a node.
+// An entry missing from the writer's table leaves an indirect value unwritten: the reference dangles and the
+// pages below lose the inherited attribute in the optimized output.
+func checkInheritableEntriesWritten(c *Ctx) {
+	p, r := c.P, c.R
+	rd := p.Func("pkg/pdfcpu/model.(*XRefTable).checkInheritedPageAttrs")
+	wr := p.Func("pkg/pdfcpu.writePageEntries")
+	if rd == nil || wr == nil {
+		r.Bad("C20.R6", "pkg/pdfcpu.writePageEntries", "anchor", "", "UNRESOLVED-ANCHOR: writePageEntries or checkInheritedPageAttrs not found")
+		return
+	}
+	inherited := constLookupKeys(rd)
+	written := map[string]bool{}
+	eachInstr(wr, func(_ *ssa.BasicBlock, _ int, i ssa.Instruction) {
+		if st, ok := i.(*ssa.Store); ok {
+			if s, ok := constString(st.Val); ok {
+				written[s] = true
+			}
+		}
+		if call, ok := i.(*ssa.Call); ok {
+			for _, a := range call.Call.Args {
+				if s, ok := constString(a); ok {
+					written[s] = true
+				}
+			}
+		}
+	})
+	if len(inherited) < 3 {
+		r.Bad("C20.R6", FuncID(rd), "inherited keys", p.Pos(rd.Pos()), "UNRESOLVED-ANCHOR: fewer than three constant keys looked up by the reader of inherited page attributes")
+		return
+	}
+	var keys []string
+	for k := range inherited {
+		keys = append(keys, k)
+	}
+	sort.Strings(keys)
+	for _, k := range keys {
+		if written[k] {
+			r.OK("C20.R6", FuncID(wr), "entry /"+k, p.Pos(wr.Pos()), "inherited by the page-tree reader and written for /Pages nodes", true)
+		} else {
+			r.Bad("C20.R6", FuncID(wr), "entry /"+k, p.Pos(wr.Pos()), "the page-tree reader inherits /"+k+" from /Pages nodes, but the writer's table of entries for such nodes does not name it: an indirect value is never written, the reference dangles, and the pages below lose the attribute after optimization")
+		}
+	}
+}
+
+// checkContentDedupComparesStoredBytes (C20.R7): a page's content stream is replaced by a cached one only on the
+// true edge of a byte comparison of fields that are present: the Raw bytes, or the Content of streams decoded in
+// this function. Comparing a field that is not loaded (nil == nil) makes all streams of equal length duplicates.
+func checkContentDedupComparesStoredBytes(c *Ctx) {
+	p, r := c.P, c.R
+	fn := p.Func("pkg/pdfcpu.optimizeContentStreamUsage")
+	if fn == nil {
+		r.Bad("C20.R7", "pkg/pdfcpu.optimizeContentStreamUsage", "anchor", "", "UNRESOLVED-ANCHOR")
+		return
+	}
+	decoded := false
+	eachInstr(fn, func(_ *ssa.BasicBlock, _ int, i ssa.Instruction) {
+		if call, ok := i.(*ssa.Call); ok {
+			if _, ref := callRef(call); strings.HasSuffix(ref, "StreamDict).Decode") || strings.HasSuffix(ref, "StreamDict.Decode") {
+				decoded = true
+			}
+		}
+	})
+	n := 0
+	for _, ret := range returnsOf(fn) {
+		if len(ret.Results) == 0 {
+			continue
+		}
+		if cst, ok := ret.Results[0].(*ssa.Const); ok && cst.IsNil() {
+			continue
+		}
+		n++
+		construct := fmt.Sprintf("redirect#%d", n)
+		pos := posOrFn(p, ret, fn)
+		var cmp *ssa.Call
+		eachInstr(fn, func(_ *ssa.BasicBlock, _ int, i ssa.Instruction) {
+			call, ok := i.(*ssa.Call)
+			if !ok {
+				return
+			}
+			_, ref := callRef(call)
+			if ref != "bytes.Equal" && ref != "pkg/pdfcpu/model.EqualObjects" && ref != "pkg/pdfcpu/model.EqualStreamDicts" {
+				return
+			}
+			for _, bv := range boolResults(call) {
+				for _, al := range aliasesOf(bv) {
+					for _, e := range condEdges(al, true) {
+						if edgeDominates(e, ret.Block()) {
+							cmp = call
+						}
+					}
+				}
+			}
+		})
+		if cmp == nil {
+			r.Bad("C20.R7", FuncID(fn), construct, pos, "a page's content stream is redirected to a cached one without a successful comparison of the two streams deciding it")
+			continue
+		}
+		bad := ""
+		if _, ref := callRef(cmp); ref == "bytes.Equal" {
+			for _, a := range cmp.Call.Args {
+				fp := fieldPath(a)
+				switch {
+				case strings.HasSuffix(fp, "Raw"):
+				case strings.HasSuffix(fp, "Content") && decoded:
+				case strings.HasSuffix(fp, "Content"):
+					bad = "it compares the Content field, which is only filled by Decode() and is not decoded here"
+				default:
+					bad = "it compares " + exprName(a) + ", not the streams' stored bytes"
+				}
+			}
+		}
+		if bad != "" {
+			r.Bad("C20.R7", FuncID(fn), construct, p.Pos(cmp.Pos()), "the comparison that declares two content streams duplicates does not look at bytes that are present: "+bad+" — streams of equal length then compare equal and a page gets another page's content")
+		} else {
+			r.OK("C20.R7", FuncID(fn), construct, pos, "reached only on the true edge of a comparison of the streams' stored bytes", true)
+		}
+	}
+	if n == 0 {
+		r.Bad("C20.R7", FuncID(fn), "redirect", p.Pos(fn.Pos()), "UNRESOLVED-ANCHOR: no return of a replacement reference found")
 	}
 }
